@@ -217,6 +217,16 @@ def driver_rules(ctx, chk, drv):
             # INT has exits (int 0, unsupported AH) but must have at least one path back
             chk.violation("C08.R5", "CMDDriver::run", f"{name}-never-continues", f"the {name} arm never continues the loop", span)
             continue
+        if name in ("JMP", "NEXT", "REPEAT"):
+            # these outcomes always continue: no path from the arm may leave the loop (only HALT, a failed print, an
+            # interrupt that stops the program, or an internal error may return)
+            leave = [b for b in cfg.reachable_from(tgt, avoid={sb, pb}) if M.term(drv["blocks"][b])[0] == "return"
+                     or (M.term(drv["blocks"][b])[0] == "call" and (M.term(drv["blocks"][b])[1].get("def") or "").endswith("process::exit"))]
+            if leave:
+                chk.violation("C08.R5", "CMDDriver::run", f"{name}-arm-can-stop", f"the {name} arm can stop the program (a return/exit is reachable before the next instruction is issued): "
+                              f"execution ends silently for some jump target / index", f"{drv['span'].rsplit(':', 2)[0]}:{drv['blocks'][leave[0]]['term']['line']}")
+            else:
+                chk.ok("C08.R5", unit + ":continues", "every path returns to the interpreter call")
         if how == "same":
             if ass:
                 chk.violation("C08.R5", "CMDDriver::run", "repeat-changes-idx", "the REPEAT arm modifies idx", span)
@@ -243,7 +253,14 @@ def driver_rules(ctx, chk, drv):
                         if c[0] == "rvalue" and c[1][0] == "bin" and c[1][1] in ("AddO", "Add"):
                             ops = c[1][2:]
                             consts = [o[1].get("val") for o in ops if o[0] == "const"]
-                            locs = [o[1]["l"] for o in ops if o[0] in ("copy", "move")]
+                            from cfgtools import Defs, origin
+                            dd_ = Defs(drv)
+                            locs = []
+                            for o in ops:
+                                if o[0] in ("copy", "move"):
+                                    oo = origin(dd_, o)
+                                    # the operand is idx itself or a fresh copy of it (`idx = idx + 1` reads idx into a temporary)
+                                    locs.append(oo[1] if oo[0] in ("multi", "param") else (oo[1]["l"] if oo[0] == "place" else o[1]["l"]))
                             okp = consts == [1] and locs == [idx]
                 good &= okp
         if good:
